@@ -535,6 +535,14 @@ fn one<T: Sc>(out: &mut Out, rng: &mut Rng, i: usize, thorough: bool) {
         }
     }
     let _ = thorough;
+    // the exponential families (ordinary data, up to three basis functions) with a SPECIAL singular-value
+    // threshold, cycled deterministically: zero, minus zero, the smallest subnormal, 1e-300, huge, infinite,
+    // NaN, negative - everything else about the case is ordinary (the regression of round 13 showed that the
+    // random draw of the threshold could miss `epsilon(0.0)` with three basis functions for a whole run)
+    if kind == 6 {
+        const EPS_SPECIALS: [f64; 8] = [0.0, -0.0, 5e-324, 1e-300, 1e308, f64::INFINITY, f64::NAN, -1e-3];
+        c.eps = Some(T::of(EPS_SPECIALS[(i / 10) % 8]));
+    }
     let cfg = if i % 5 == 0 { random_lmcfg(rng) } else { LmCfg::default_cfg() };
     let with_stats = !c.flavour.is_mrhs() && (i % 2 == 0 || kind == 9);
     emit_robust_case(out, &c, second, &cfg, with_stats, what, poke);
